@@ -149,6 +149,13 @@ def analyses():
         u.add_reactions([r])
         return u
 
+    def _optimal(sol):
+        # a starting point / reference handed on to the next call must be a solution (under an injected fault the first
+        # call reports none: the caller stops there, as a user would)
+        if sol.status != "optimal":
+            raise RuntimeError("no solution to hand on")
+        return sol
+
     A = {
         "optimize": lambda m: m.optimize(),
         "optimize_min": lambda m: m.optimize(objective_sense="minimize"),
@@ -177,6 +184,21 @@ def analyses():
         "single_gene_deletion_moma": lambda m: single_gene_deletion(m, method="linear moma", processes=1),
         "single_reaction_deletion_room": lambda m: single_reaction_deletion(m, method="linear room", processes=1),
         "production_envelope": lambda m: production_envelope(m, ["EX_A"], objective="EX_C", points=3),
+        # the same analyses with other argument combinations (defaults instead of explicit values and vice versa)
+        "production_envelope_model_objective": lambda m: production_envelope(m, ["EX_A"], points=3),
+        "production_envelope_carbon": lambda m: production_envelope(m, ["EX_A"], objective="EX_C", carbon_sources="EX_A", points=2),
+        "optimize_max": lambda m: m.optimize(objective_sense="maximize"),
+        "pfba_objective": lambda m: pfba(m, objective={m.reactions.r1: 1}),
+        "pfba_reactions": lambda m: pfba(m, reactions=["r1"]),
+        "moma_linear_reference": lambda m: moma(m, solution=_optimal(pfba(m)), linear=True),
+        "room_reference": lambda m: room(m, solution=_optimal(pfba(m)), linear=True, delta=0.1, epsilon=0.01),
+        "loopless_solution_fluxes": lambda m: loopless_solution(m, fluxes=_optimal(m.optimize()).fluxes),
+        "essential_genes_threshold": lambda m: find_essential_genes(m, threshold=0.5, processes=1),
+        "single_gene_deletion_list": lambda m: single_gene_deletion(m, gene_list=["g1", m.genes.g2], processes=1),
+        "fva_objects_loopless_fraction": lambda m: flux_variability_analysis(
+            m, reaction_list=[m.reactions.r2], loopless=True, fraction_of_optimum=0.5, processes=1),
+        "minimal_medium_default": lambda m: minimal_medium(m),
+        "model_summary_solution": lambda m: m.summary(solution=_optimal(pfba(m))),
         "assess": lambda m: assess(m, m.reactions.r1),
         "assess_precursors": lambda m: assess_precursors(m, m.reactions.r1),
         "assess_products": lambda m: assess_products(m, m.reactions.r1),
@@ -199,10 +221,11 @@ def analyses():
 
 # big-M formulations with infinite bounds make GLPK abort the process ("invalid scale factor"): the
 # formulations are documented for finite bounds; these combinations are not run
-SKIP = {("unbounded", a) for a in ("room", "room_linear", "single_reaction_deletion_room", "minimal_medium_components",
+SKIP = {("unbounded", a) for a in ("room_reference", "fva_objects_loopless_fraction", "room", "room_linear", "single_reaction_deletion_room", "minimal_medium_components",
                                    "fva_loopless", "gapfill", "sample_achr", "sample_optgp", "geometric_fba")}
 
-NON_UNIQUE = {"optimize", "optimize_min", "optimize_raise", "pfba", "pfba_fraction", "moma_linear", "room", "room_linear",
+NON_UNIQUE = {"optimize_max", "pfba_objective", "pfba_reactions", "moma_linear_reference", "room_reference",
+              "loopless_solution_fluxes", "optimize", "optimize_min", "optimize_raise", "pfba", "pfba_fraction", "moma_linear", "room", "room_linear",
               "geometric_fba", "loopless_solution", "gapfill", "sample_achr", "sample_optgp", "fastcc",
               "single_gene_deletion_moma", "single_reaction_deletion_room", "minimal_medium_components"}
 
@@ -326,8 +349,28 @@ def run_once(kind, aname, plan, in_context):
     return problems, seam.count, outcome, result, m
 
 
+def plans_for(n, maxk, pairs):
+    ks = list(range(1, min(n, maxk) + 1))
+    if n > maxk:
+        ks.append(n)
+    plans = [{k: f} for k in ks for f in FAULTS]
+    if pairs and n <= 30:
+        import itertools
+
+        for k1, k2 in itertools.combinations(range(1, n + 1), 2):
+            plans.append({k1: "raise", k2: "infeasible"})
+            plans.append({k1: "infeasible", k2: "raise"})
+    return plans
+
+
 def run_task(payload):
     kind, aname = payload["model"], payload["analysis"]
+    if "single" in payload:
+        # one run in a process of its own (used to find the run that killed a worker)
+        plan, ctx = payload["single"]
+        plan = {int(k): v for k, v in plan.items()}
+        _, n, outcome, _, _ = run_once(kind, aname, plan, ctx)
+        return {"violations": [], "stats": {}, "n": n, "outcome": outcome}
     maxk, pairs = payload["maxk"], payload["pairs"]
     stats = {"runs": 0, "fault_runs": 0}
     violations = []
@@ -368,17 +411,7 @@ def run_task(payload):
                                        {"model": kind, "analysis": aname, "plan": {}, "context": False, "repeat": True},
                                        f"first {outcome} {first}\nsecond {o2} {again}"))
                 stats["runs"] += 1
-        ks = list(range(1, min(n, maxk) + 1))
-        if n > maxk:
-            ks.append(n)
-        plans = [{k: f} for k in ks for f in FAULTS]
-        if pairs and n <= 30:
-            import itertools
-
-            for k1, k2 in itertools.combinations(range(1, n + 1), 2):
-                plans.append({k1: "raise", k2: "infeasible"})
-                plans.append({k1: "infeasible", k2: "raise"})
-        for plan in plans:
+        for plan in plans_for(n, maxk, pairs):
             try:
                 problems, _, outcome, _, _ = run_once(kind, aname, plan, ctx)
             except Exception as exc:
@@ -427,10 +460,27 @@ def explore(ctx):
             r = ctx.collect(status, r0)
             if r is None:
                 if status in ("abort", "timeout"):
+                    # which run of the task killed (or hung) the worker?  Every run again, each in a process of its own.
                     p = payloads[i]
-                    ctx.violation({"analysis": p["analysis"], "model": p["model"], "check": "process " + status,
-                                   "fault": "unknown", "in_context": False},
-                                  {"model": p["model"], "analysis": p["analysis"], "plan": {}, "context": False}, status)
+                    found = False
+                    for uctx in (False, True):
+                        (st0, r0), = pool.map([dict(p, single=({}, uctx))])
+                        todo = [{}] if st0 != "ok" else [{}] + plans_for(r0["n"], p["maxk"], p["pairs"])
+                        for plan in todo:
+                            (st1, _), = pool.map([dict(p, single=({str(k): v for k, v in plan.items()}, uctx))])
+                            if st1 != "ok":
+                                found = True
+                                ctx.violation({"analysis": p["analysis"], "model": p["model"], "check": "process " + st1,
+                                               "kind": st1, "fault": "+".join(sorted(set(plan.values()))) or "none",
+                                               "in_context": uctx},
+                                              {"model": p["model"], "analysis": p["analysis"],
+                                               "plan": {str(k): v for k, v in plan.items()}, "context": uctx},
+                                              f"{p['analysis']} on {p['model']} plan={plan} in_context={uctx}: the process "
+                                              f"running it ended with {st1} (no Python exception)")
+                    if not found:
+                        ctx.violation({"analysis": p["analysis"], "model": p["model"], "check": "process " + status,
+                                       "fault": "unknown", "in_context": False},
+                                      {"model": p["model"], "analysis": p["analysis"], "plan": {}, "context": False}, status)
                 continue
             for k, v in r["stats"].items():
                 stats[k] = stats.get(k, 0) + v
